@@ -11,16 +11,16 @@ from . import bip_common as B
 from .unify_common import struct_eq, build_pterm
 from .c16 import to_spec, txt
 
-ANCHORS = ['bip_count', 'count_terms', 'bip_include', 'bip_exclude', 'filter', 'next_solution_functor', 'atoms_match', 'evaluate_join', 'get_terms']
-WITNESSES = {'all': ['count', 'include', 'exclude', 'functor', 'join', 'bound-tail', 'prefix-pattern', 'punctuation', 'filter-with-variable']}
+ANCHORS = ['bip_count', 'count_terms', 'bip_include', 'bip_exclude', 'filter', 'next_solution_functor', 'atoms_match', 'evaluate_join', 'get_terms', 'recreate_variables']
+WITNESSES = {'all': ['count', 'include', 'exclude', 'functor', 'join', 'bound-tail', 'prefix-pattern', 'punctuation', 'filter-with-variable', 'in-a-rule-body']}
 OPTS = {'quick': {'selfcheck_mod': 20, 'budget_s': 280}, 'thorough': {'selfcheck_mod': 150, 'budget_s': 2400}}
 STEP_LIMIT = 150_000
 NATIVE_TIMEOUT = 5.0
 BOUNDS = {
     'quick': 'count over lists of 0-3 elements (nested, empty-list elements, tails bound to lists of 0-2 elements directly, through a second variable, and to lists that again end in a bound tail; through variables); include/exclude with filters '
              '{a, $_, $F unbound, $F bound, f($_), f($F), symbolic i64} over lists of 0-3 elements drawn from {a, b, symbolic i64, f(a), f(b), [b], $E bound to a} incl. bound tails; '
-             'functor on complex terms of arity 0-4 with exact / `prefix*` patterns whose characters are symbolic, variable functor position, 2- and 3-argument forms; '
-             'join over 1-4 words/punctuation marks chosen from {w, x, ",", ".", "?", "!"} given directly, in lists and through bound variables',
+             'functor on complex terms of arity 0-4 with exact / `prefix*` patterns (1- and 2-character prefixes) whose characters are symbolic over U+0061..U+07FF (one- and two-byte characters), variable functor position, 2- and 3-argument forms; '
+             'join over 1-4 words/punctuation marks chosen from {w, x, ",", ".", "?", "!"} given directly, in lists and through bound variables; 26 programs with the built-ins in a rule body (variables inside list literals and complex terms, filled in from the head), answers compared with the reference',
     'thorough': 'lists up to 4 elements, 5 join items, functor names of up to 3 symbolic characters',
 }
 OUTSIDE = 'count on lists with an unbound tail or on non-lists; join on non-atomic items'
@@ -47,7 +47,7 @@ def cases(tier, seed):
                 for chain in (0, 1):
                     out.append({'id': '%s(%s, %s/%d)' % (pred, ftxt(f), ftxt(l), chain), 'fam': pred, 'F': f, 'L': l, 'chain': chain})
     for arity in range(0, 5):
-        for pat in ('exact', 'other', 'prefix', 'prefix-miss', 'star-only', 'var', 'boundvar', 'int', 'bound-prefix', 'bound-prefix-miss', 'bound-other', 'bound-star', 'bound-int'):
+        for pat in ('exact', 'other', 'prefix', 'prefix-miss', 'star-only', 'var', 'boundvar', 'int', 'bound-prefix', 'bound-prefix-miss', 'bound-other', 'bound-star', 'bound-int', 'prefix2', 'prefix2-miss'):
             for nargs in (2, 3):
                 for chain in (0, 1):
                     out.append({'id': 'functor(arity %d, %s, %d args, chain %d)' % (arity, pat, nargs, chain), 'fam': 'functor', 'arity': arity, 'pat': pat, 'nargs': nargs, 'chain': chain})
@@ -55,7 +55,46 @@ def cases(tier, seed):
     for n in range(1, nmax + 1):
         for shape in ('direct', 'list', 'vars', 'mixed', 'listvars'):
             out.append({'id': 'join %d items %s' % (n, shape), 'fam': 'join', 'n': n, 'shape': shape})
+    from .. import progs as P
+    for i, (cl, q) in enumerate(rule_programs()):
+        out.append({'id': 'in a rule: %s ?- %s' % (P.ctext(cl[0]), P.ttext(q)), 'fam': 'rule', 'i': i})
     return out
+
+
+def rule_programs():
+    """the built-ins written in a rule body: their arguments go through the renaming of the fetched clause and get values from the head"""
+    from ..progs import V, A, C, L, I, gc, gb, AND, U as UNI, F
+    X, Y, O, Lv = V('X'), V('Y'), V('Out'), V('L')
+    bodies = [UNI(O, F('join', L(A('Hello'), X), A('!'))), UNI(O, F('join', X, L(Y, A('?')))), AND(UNI(Lv, L(X, A('b'))), UNI(O, F('join', Lv, A('.')))),
+              UNI(O, F('join', L(L(X)), Y)) if False else UNI(O, F('join', A('w'), L(X, Y), A(','), X)),
+              gb('count', L(A('a'), X, C('f', X)), O), gb('count', L(X, tail=Lv), O), AND(UNI(Lv, L(Y, Y)), gb('count', L(X, tail=Lv), O)),
+              gb('include', C('f', ('anon',)), L(C('f', X), A('b'), C('f', Y)), O), gb('exclude', X, L(A('a'), X, Y), O), gb('include', X, L(Y, C('f', X), X), O),
+              gb('functor', C('g', X, A('k')), O), gb('functor', C('g', X, C('h', Y)), A('g*'), O), AND(UNI(Lv, C('pair', X, Y)), gb('functor', Lv, O, I(2)))]
+    out = []
+    for b in bodies:
+        for q in (C('t', A('Ann'), A('b'), O), C('t', A('a'), A('a'), O)):
+            out.append(([(C('t', X, Y, O), b)], q))
+    return out
+
+
+def run_rule(drv, case):
+    from .. import progs as P
+    from .. import refsld as S
+    m = drv.m
+    clauses, query = rule_programs()[case['i']]
+    desc = case['id']
+    try:
+        ref = P.ref_search(m, clauses, query, 4)
+    except S.Outside:
+        return {'tags': ['outside-claim'], 'nontrivial': False}
+    kb = P.build_kb(drv, clauses)
+    try:
+        run_ = P.impl_search(drv, kb, query, 4, 0)
+    except ScenarioEnd as e:
+        raise Violation('rule-%s' % e.why[0], '%s: %s' % (desc, e.why[1][:200]))
+    problem = P.compare_runs(m, run_, ref, desc)
+    if problem is not None: raise Violation('rule-' + problem[0], problem[1])
+    return {'tags': ['in-a-rule-body'], 'note': desc}
 
 
 def ftxt(a):
@@ -196,7 +235,7 @@ def norm(p):
 def run_functor(drv, case):
     m = drv.m
     env = B.Env(drv, first_id=10)
-    name = B.sym_atom(m, 'fn', 2, lo=97, hi=122)
+    name = B.sym_atom(m, 'fn', 2, lo=97, hi=0x7ff)       # letters and everything up to two-byte characters (no `*`)
     args = tuple(('atom', 'a%d' % i) for i in range(case['arity']))
     c = ('cplx', (name,) + args)
     ct = env.via_chain(c, case['chain'])
@@ -208,9 +247,14 @@ def run_functor(drv, case):
     elif pat == 'other': p = ('atom', tuple(name[1]) + ('z',)) if not isinstance(name[1], str) else ('atom', name[1] + 'z'); expect_ok = False
     elif pat == 'prefix': p = ('atom', (n0, '*')) if not isinstance(n0, str) or True else None
     elif pat == 'prefix-miss':
-        q = B.sym_char(m, 'pm', 97, 122)
+        q = B.sym_char(m, 'pm', 97, 0x7ff)
         if R.eq(m, q, n0): raise PathInfeasible()
         p = ('atom', (q, '*')); expect_ok = False
+    elif pat == 'prefix2': p = ('atom', (n0, n1, '*'))
+    elif pat == 'prefix2-miss':
+        q = B.sym_char(m, 'pm', 97, 0x7ff)
+        if R.eq(m, q, n1): raise PathInfeasible()
+        p = ('atom', (n0, q, '*')); expect_ok = False
     elif pat == 'star-only': p = ('atom', '*')
     elif pat == 'var': p = out; expect_bind = name
     elif pat == 'boundvar': env.bind(out, name); p = out
@@ -221,7 +265,7 @@ def run_functor(drv, case):
     elif pat == 'bound-other': env.bind(out, norm(('atom', tuple(name[1]) + ('z',)))); p = out; expect_ok = False
     elif pat == 'bound-int': env.bind(out, ('int', 1)); p = out; expect_ok = False
     elif pat == 'bound-prefix-miss':
-        q = B.sym_char(m, 'pm', 97, 122)
+        q = B.sym_char(m, 'pm', 97, 0x7ff)
         if R.eq(m, q, n0): raise PathInfeasible()
         env.bind(out, norm(('atom', (q, '*')))); p = out; expect_ok = False
     if p[0] == 'atom' and not isinstance(p[1], str) and all(isinstance(x, str) for x in p[1]): p = ('atom', ''.join(p[1]))
@@ -297,6 +341,7 @@ def run_join(drv, case):
 
 def run(drv, case):
     f = case['fam']
+    if f == 'rule': return run_rule(drv, case)
     if f == 'count': return run_count(drv, case)
     if f in ('include', 'exclude'): return run_filter(drv, case)
     if f == 'functor': return run_functor(drv, case)
